@@ -1360,6 +1360,9 @@ func (self *BinaryServerProtocol) ProcessParseLockData() (*protocol.LockCommandD
 	if err != nil {
 		return nil, err
 	}
+	if err = protocol.ValidateLockCommandDataBytes(buf, 0); err != nil {
+		return nil, err
+	}
 	return protocol.NewLockCommandDataFromOriginBytes(buf), nil
 }
 
